@@ -114,6 +114,7 @@ class Sub:
     steps: dict = field(default_factory=lambda: {'quick': 30, 'thorough': 50})
     exhaustive: bool = False
     target: str | None = None  # kind 'fuzz': name of the atheris target in pbt/fuzz_targets.py
+    shrink: bool = True  # False for sub-checks whose single evaluation takes seconds: the first failing case is reported as generated
 
 
 def canon(case) -> str:
@@ -342,7 +343,7 @@ def _run_hyp(mod, sub, res, findings, seedval, n, tier, t0, budget_s):
         if state['fail_t'] is None:
             res.record(case, info)
 
-    test = hypothesis.seed(seedval)(_settings(n, tier)(given(sub.strategy(tier))(body)))
+    test = hypothesis.seed(seedval)(_settings(n, tier, shrink=sub.shrink)(given(sub.strategy(tier))(body)))
     try:
         test()
     except Violation as v:
